@@ -114,6 +114,20 @@ def DESIGNATOR_MD5 := 7
 def DESIGNATOR_NAME := 8
 def DESIGNATOR_PCIE := 9
 
+/-- the fields selected by the NAA value (`if decode_dict["naa"] == NAA.…`) -/
+def naaFields (data : Bytes) (naa : Nat) (d : PDict) : Except PyErr PDict := do
+  let d ← if naa = 2 then decodeInto data Gen.Inquiry_naa_ieee_extended_bits d else pure d
+  let d ← if naa = 3 then decodeInto data Gen.Inquiry_naa_locally_assigned_bits d else pure d
+  let d ← if naa = 5 then decodeInto data Gen.Inquiry_naa_ieee_registered_bits d else pure d
+  let d ← if naa = 6 then decodeInto data Gen.Inquiry_naa_ieee_registered_extended_bits d else pure d
+  pure d
+
+/-- the NAA branch of `Inquiry.unmarshall_designator` -/
+def naaDesignator (data : Bytes) (d : PDict) : Except PyErr PDict := do
+  let d ← decodeInto data Gen.Inquiry_naa_type_bits d
+  let naa ← getInt d "naa"
+  naaFields data naa d
+
 /-- `Inquiry.unmarshall_designator(_type, data)` -/
 def designator (ty : Nat) (data : Bytes) : Except PyErr PDict := do
   let d : PDict := []
@@ -130,15 +144,7 @@ def designator (ty : Nat) (data : Bytes) : Except PyErr PDict := do
           "vendor_specific_extension_id" (.bytes (data.drop 11))
       else d)
     else d
-  let d ← if ty = DESIGNATOR_NAA then do
-      let d ← decodeInto data Gen.Inquiry_naa_type_bits d
-      let naa ← getInt d "naa"
-      let d ← if naa = 2 then decodeInto data Gen.Inquiry_naa_ieee_extended_bits d else pure d
-      let d ← if naa = 3 then decodeInto data Gen.Inquiry_naa_locally_assigned_bits d else pure d
-      let d ← if naa = 5 then decodeInto data Gen.Inquiry_naa_ieee_registered_bits d else pure d
-      let d ← if naa = 6 then decodeInto data Gen.Inquiry_naa_ieee_registered_extended_bits d else pure d
-      pure d
-    else pure d
+  let d ← if ty = DESIGNATOR_NAA then naaDesignator data d else pure d
   let d ← if ty = DESIGNATOR_RELPORT then decodeInto data Gen.Inquiry_relative_port_bits d else pure d
   let d ← if ty = DESIGNATOR_TPG then decodeInto data Gen.Inquiry_target_portal_group_bits d else pure d
   let d ← if ty = DESIGNATOR_LUG then decodeInto data Gen.Inquiry_logical_unit_group_bits d else pure d
